@@ -197,4 +197,70 @@ fn verif_sql_contracts() {
         t_leases.check(got == want, || format!("table={:?} got={:?}", t, got));
     }
     t_leases.done();
+
+    // ---- C18: reopen / schema upgrade / newer-schema refusal on file-backed databases (SQLite durability and DDL semantics
+    //      are assumed by unit poolschema; checked here for every table of the bound) ----
+    let dir = std::env::temp_dir().join(format!("verif-sql-{}", std::process::id()));
+    let _ = std::fs::create_dir_all(&dir);
+    let mut t_reopen = Tally::new("reopen/rows-survive-close-and-reopen");
+    let mut t_v0 = Tally::new("reopen/v0-schema-upgraded-rows-preserved");
+    let mut t_newer = Tally::new("reopen/newer-schema-refused-unmodified");
+    for (i, t) in tabs.iter().enumerate() {
+        // current schema: write through the real code path (new_with_conn), close, reopen
+        let path = dir.join(format!("cur-{}.sqlite", i));
+        let _ = std::fs::remove_file(&path);
+        {
+            let p = Pool::new_with_conn(rusqlite::Connection::open(&path).expect("open")).expect("setup_db");
+            for r in t {
+                p.conn.execute("INSERT INTO leases (address, clientid, start, expiry) VALUES (?1, ?2, ?3, ?4)",
+                    rusqlite::params![ADDRS[r.addr].to_string(), CLIENTS[r.client], r.start, r.expiry]).expect("insert");
+            }
+        }
+        let mut want: Vec<_> = t.iter().map(|r| (ADDRS[r.addr].to_string(), CLIENTS[r.client].to_vec(), r.start, r.expiry)).collect();
+        want.sort();
+        match Pool::new_with_conn(rusqlite::Connection::open(&path).expect("reopen")) {
+            Ok(mut p) => { let got = dump(&mut p); t_reopen.check(got == want, || format!("table={:?} got={:?}", t, got)); }
+            Err(e) => t_reopen.check(false, || format!("table={:?} reopen failed: {:?}", t, e)),
+        }
+        // version-0 schema (no options column, no schema_version table) with rows
+        let path0 = dir.join(format!("v0-{}.sqlite", i));
+        let _ = std::fs::remove_file(&path0);
+        {
+            let c = rusqlite::Connection::open(&path0).expect("open v0");
+            c.execute("CREATE TABLE leases (address TEXT NOT NULL, chaddr BLOB, clientid BLOB, start INTEGER NOT NULL, expiry INTEGER NOT NULL, PRIMARY KEY (address))", rusqlite::params![]).expect("v0 schema");
+            for r in t {
+                c.execute("INSERT INTO leases (address, clientid, start, expiry) VALUES (?1, ?2, ?3, ?4)",
+                    rusqlite::params![ADDRS[r.addr].to_string(), CLIENTS[r.client], r.start, r.expiry]).expect("insert v0");
+            }
+        }
+        match Pool::new_with_conn(rusqlite::Connection::open(&path0).expect("open v0 again")) {
+            Ok(mut p) => {
+                let got = dump(&mut p);
+                let ver: i64 = p.conn.query_row("SELECT version FROM schema_version WHERE key = 'pool'", rusqlite::params![], |r| r.get(0)).unwrap_or(-1);
+                t_v0.check(got == want && ver == 1, || format!("table={:?} got={:?} version={}", t, got, ver));
+            }
+            Err(e) => t_v0.check(false, || format!("table={:?} v0 open failed: {:?}", t, e)),
+        }
+        // a newer, unknown schema version: refused, file content unchanged
+        let path2 = dir.join(format!("v2-{}.sqlite", i));
+        let _ = std::fs::remove_file(&path2);
+        {
+            let p = Pool::new_with_conn(rusqlite::Connection::open(&path2).expect("open")).expect("setup_db");
+            for r in t {
+                p.conn.execute("INSERT INTO leases (address, clientid, start, expiry) VALUES (?1, ?2, ?3, ?4)",
+                    rusqlite::params![ADDRS[r.addr].to_string(), CLIENTS[r.client], r.start, r.expiry]).expect("insert");
+            }
+            p.conn.execute("INSERT OR REPLACE INTO schema_version (key, version) VALUES ('pool', 2)", rusqlite::params![]).expect("bump");
+        }
+        let refused = Pool::new_with_conn(rusqlite::Connection::open(&path2).expect("open v2")).is_err();
+        let c = rusqlite::Connection::open(&path2).expect("inspect v2");
+        let ver: i64 = c.query_row("SELECT version FROM schema_version WHERE key = 'pool'", rusqlite::params![], |r| r.get(0)).unwrap_or(-1);
+        let n: i64 = c.query_row("SELECT COUNT(*) FROM leases", rusqlite::params![], |r| r.get(0)).unwrap_or(-1);
+        t_newer.check(refused && ver == 2 && n as usize == t.len(), || format!("table={:?} refused={} version={} rows={}", t, refused, ver, n));
+        let _ = std::fs::remove_file(&path);
+        let _ = std::fs::remove_file(&path0);
+        let _ = std::fs::remove_file(&path2);
+    }
+    let _ = std::fs::remove_dir_all(&dir);
+    for x in [&t_reopen, &t_v0, &t_newer] { x.done(); }
 }
